@@ -31,6 +31,20 @@ fn windows() -> Vec<[R; 6]> {
             }
         }
     }
+    // every window over one small alphabet: all the coincidences between the six parameters (l = -r, b = l, t = r,
+    // n = r, a border at 0 ...) that a fast path for "centred" or "square" windows would key on
+    let al: [i64; 6] = [-2, -1, 0, 1, 2, 3];
+    for (li, l) in al.iter().enumerate() {
+        for r in &al[li + 1..] {
+            for (bi, b) in al.iter().enumerate() {
+                for t in &al[bi + 1..] {
+                    for (n, f) in [(1, 2), (2, 3), (1, 3)] {
+                        out.push([(*l, 1), (*r, 1), (*b, 1), (*t, 1), (n, 1), (f, 1)]);
+                    }
+                }
+            }
+        }
+    }
     // planes at negative distances (both behind the eye; one on either side): frustum only demands near <= far
     let extra: Vec<[R; 6]> = out.iter().step_by(61).flat_map(|w| [[w[0], w[1], w[2], w[3], (-w[5].0, w[5].1), (-w[4].0, w[4].1)], [w[0], w[1], w[2], w[3], (-w[4].0, w[4].1), w[5]]]).collect();
     out.extend(extra);
@@ -51,7 +65,7 @@ fn boxes<T: Tier>(rep: &mut Report) {
     rep.cases(
         "ortho+frustum",
         T::NAME,
-        &format!("{} parameter tuples (l<r, b<t, n<f: 729 with 0<n, 24 with n<f<0 or n<0<f; asymmetric) x 27 probes of the box (ortho) and 18 of the near/far rectangles (frustum)", ws.len()),
+        &format!("{} parameter tuples (l<r, b<t, n<f: 729 asymmetric ones and all 675 over the alphabet {{-2..3}} with 0<n, the rest with n<f<0 or n<0<f) x 27 probes of the box (ortho) and 18 of the near/far rectangles (frustum)", ws.len()),
         ws.len(),
         Guard::states(100).distinct(100),
         |i, ctx| {
